@@ -45,7 +45,7 @@ AcksOf(arr) == [n \in {e.a : e \in SeqRange(arr)} |->
 
 CfgOf(c) == [max |-> c.max_weight, shards |-> c.shards, qsize |-> c.qsize, pool |-> c.pool, buffer |-> c.buffer,
              wf_base |-> c.wf_base, wf_mod |-> IF c.wf_mod < 1 THEN 1 ELSE c.wf_mod, wf_ttl |-> c.wf_ttl,
-             clock0 |-> c.clock0, hash |-> c.hash]
+             clock0 |-> c.clock0, hash |-> c.hash, dwf |-> c.default_weight_fn]
 
 HasEv(r, name) == \E i \in DOMAIN r.ev : r.ev[i].e = name
 EvF(r, name) == r.ev[CHOOSE i \in DOMAIN r.ev : r.ev[i].e = name /\ \A j \in DOMAIN r.ev : r.ev[j].e = name => i <= j].f
@@ -116,7 +116,7 @@ DivFields(P, A, r, predRet) ==
 (* the trace machine *)
 
 Init == l = 1 /\ st = [none |-> TRUE] /\ gh = [none |-> TRUE] /\ rep = [div |-> <<>>, verdicts |-> <<>>, steps |-> 0, runs |-> 0,
-                                                                       unmodelled |-> {}, ndiv |-> 0, nverd |-> 0]
+                                                                       unmodelled |-> {}, ndiv |-> 0, nverd |-> 0, oor |-> 0]
 
 MaxKept == 40
 
@@ -144,7 +144,14 @@ DoStep(r) ==
       E == IF isEnv THEN [st |-> EffAdvance(st, r.op.d), ret |-> NoRet]
            ELSE IF known THEN Eff(st, a, inp) ELSE [st |-> st, ret |-> NoRet]
       A == Adopted(E.st, r)
-      div == IF isEnv \/ known THEN DivFields(E.st, A, r, E.ret) ELSE {}
+      \* values near i64::MAX / Duration::MAX are clamped in the trace (two-zone encoding): arithmetic on them is outside the model's range
+      oor == \/ A.used >= Huge \/ st.used >= Huge \/ A.used <= -Huge
+             \/ \E id \in DOMAIN A.kw : A.kw[id].w >= Huge
+             \/ \E n \in DOMAIN A.stats : A.stats[n] >= Huge \/ A.stats[n] <= -Huge
+             \/ \E k \in DOMAIN A.store : A.store[k].exp >= 1000000
+             \/ r.op.w >= Huge \/ r.op.ttl >= 1000000 \/ r.op.ttl_ns # 0   \* (the model's clock has whole seconds)
+             \/ (a \in DOMAIN st.lc /\ (st.lc[a].w >= Huge \/ st.lc[a].cmd.ttl >= 1000000 \/ st.lc[a].cmd.w >= Huge \/ st.lc[a].exp >= 1000000))
+      div == IF (isEnv \/ known) /\ ~oor THEN DivFields(E.st, A, r, E.ret) ELSE {}
       G2 == GhostNext(gh, st, a, r.site, inp, A, r)
       verdicts == Judge(st, a, r.site, inp, A, r, gh, G2)
       newV == verdicts
@@ -157,6 +164,7 @@ DoStep(r) ==
                           THEN Append(@, [run |-> r.run, i |-> r.i, actor |-> a, site |-> r.site, next |-> r.next, fields |-> div])
                           ELSE @,
                   !.unmodelled = IF ~isEnv /\ ~known THEN @ \cup {r.site} ELSE @,
+                  !.oor = @ + (IF oor THEN 1 ELSE 0),
                   !.nverd = @ + Len(newV),
                   !.verdicts = Merge(@, newV, r.run, r.i)]
 
